@@ -445,6 +445,10 @@ func (g *exprGen) ref() string {
 
 func (g *exprGen) literal(t cty.Type, d int) string {
 	r := g.r
+	if (t == cty.Bool || t == cty.Number || t == cty.String) && r.Intn(8) == 0 {
+		// a typed null / an expression the evaluator reduces to a null of that type
+		return "true ? null : " + g.literal(t, d-1)
+	}
 	switch {
 	case t == cty.Bool:
 		return pick(r, []string{"true", "false"})
@@ -790,6 +794,9 @@ func (g *cfgGen) attr(n string, as *schema.AttributeSchema, d int) string {
 		}
 		if f, ok := g.forced[n]; ok && g.r.Intn(5) > 0 {
 			txt = f
+		} else if g.r.Intn(6) == 0 {
+			// values the evaluator reduces to something that is not a plain known string
+			txt = pick(g.r, []string{`true ? null : "v1"`, "null", `"v${1}"`, "[]", "7", `upper("v1")`})
 		}
 	}
 	fmt.Fprintf(&g.sb, "%s%s = %s\n", g.indent(d), n, txt)
